@@ -39,6 +39,7 @@ const (
 func (b *backend) Watch(ctx context.Context, prefix string, revision uint64) (<-chan []*proto.Event, error) {
 
 	klog.InfoS("WATCH", "prefix", prefix, "revision", revision)
+	verifhook.Yield("watch.enter")
 
 	// starting watching right away so we don't miss anything
 	ctx, cancel := context.WithCancel(ctx)
